@@ -68,7 +68,12 @@ func zzLiteralOfCount(typ, c int) string {
 	for i := 0; i < c; i++ {
 		switch typ {
 		case zzL:
-			s += " <U1 1>"
+			// children with (satisfied) declarations of their own
+			if i%2 == 0 {
+				s += " <U1[1] 1>"
+			} else {
+				s += " <L[0..1] <A [ 1 .. 2 ] \"x\">>"
+			}
 		case zzA:
 			if i == 0 {
 				s += " \""
